@@ -73,6 +73,12 @@ pub struct AccTrace {
     /// unterminated bytes after the last sentinel (no zero)
     pub tail: Vec<u8>,
     pub chunks: Chunks,
+    /// move the accumulator object to another address between feed calls (Rust allows it)
+    #[serde(default)]
+    pub relocate: bool,
+    /// copy every chunk into one reused receive buffer first, as the documented loop does
+    #[serde(default)]
+    pub reuse_buf: bool,
 }
 
 impl AccTrace {
@@ -300,7 +306,9 @@ fn c08_history<const N: usize>(
     lens: &[usize],
     out: &mut Outcome<AccTrace>,
 ) -> bool {
-    let mut acc = CobsAccumulator::<N>::new();
+    let mut acc: Box<CobsAccumulator<N>> = Box::new(CobsAccumulator::new());
+    let mut ncall_total = 0usize;
+    let mut rawbuf: Vec<u8> = Vec::new();
     let mut pending: Vec<u8> = Vec::new(); // the reference model's only state
     let mut results = 0usize;
     let mut seg_calls = 0usize; // calls spent on the current segment
@@ -322,7 +330,13 @@ fn c08_history<const N: usize>(
         }};
     }
     for &cl in lens {
-        let chunk = &stream[cstart..cstart + cl];
+        let chunk: &[u8] = if t.reuse_buf {
+            rawbuf.clear();
+            rawbuf.extend_from_slice(&stream[cstart..cstart + cl]);
+            &rawbuf
+        } else {
+            &stream[cstart..cstart + cl]
+        };
         let mut window = chunk;
         let zeros_in_chunk = chunk.iter().filter(|b| **b == 0).count();
         if zeros_in_chunk >= 3 {
@@ -372,6 +386,13 @@ fn c08_history<const N: usize>(
                 }
             };
             // real step
+            ncall_total += 1;
+            if t.relocate && N <= 1024 && ncall_total % 2 == 0 {
+                // a plain Rust move of the accumulator to a different address
+                let mut fresh: Box<CobsAccumulator<N>> = Box::new(CobsAccumulator::new());
+                std::mem::swap(&mut *fresh, &mut *acc);
+                acc = fresh;
+            }
             let call = match feed_once::<N>(&mut acc, t.borrowed, pos, window) {
                 Ok(c) => c,
                 Err(msg) => fail!(
@@ -1007,6 +1028,8 @@ fn gen_acc_trace(rng: &mut Rng, o: &GenOpts, sweep_len: Option<usize>) -> AccTra
         segments,
         tail,
         chunks: Chunks::AllCompositions,
+        relocate: rng.chance(1, 4),
+        reuse_buf: rng.chance(1, 3),
     };
     if sweep_len.is_none() {
         let s = t.stream();
@@ -1065,7 +1088,16 @@ fn gen_huge(rng: &mut Rng, overflow: bool) -> AccTrace {
         2 => nonzero_bytes(rng, 65536.min(n)),
         _ => vec![],
     };
-    let mut t = AccTrace { n, borrowed: rng.chance(1, 3), shape, segments, tail, chunks: Chunks::List(vec![]) };
+    let mut t = AccTrace {
+        n,
+        borrowed: rng.chance(1, 3),
+        shape,
+        segments,
+        tail,
+        chunks: Chunks::List(vec![]),
+        relocate: false,
+        reuse_buf: rng.chance(1, 3),
+    };
     let total = t.stream().len();
     let k = *rng.pick(&[700usize, 4096, 65535, 65536, n, n + 1, usize::MAX / 2]);
     let mut lens = Vec::new();
@@ -1178,6 +1210,16 @@ fn shrink_acc(t: &AccTrace) -> Vec<AccTrace> {
     if t.borrowed {
         let mut c = t.clone();
         c.borrowed = false;
+        out.push(c);
+    }
+    if t.relocate {
+        let mut c = t.clone();
+        c.relocate = false;
+        out.push(c);
+    }
+    if t.reuse_buf {
+        let mut c = t.clone();
+        c.reuse_buf = false;
         out.push(c);
     }
     // shorter segments: drop one payload byte
@@ -1374,16 +1416,31 @@ fn c09_history<const N: usize>(
             return false;
         }};
     }
-    let mut acc = CobsAccumulator::<N>::new();
+    let mut acc: Box<CobsAccumulator<N>> = Box::new(CobsAccumulator::new());
+    let mut ncall_total = 0usize;
+    let mut rawbuf: Vec<u8> = Vec::new();
     let mut calls: Vec<Call> = Vec::new();
     let mut cstart = 0usize;
     for &cl in lens {
-        let chunk = &stream[cstart..cstart + cl];
+        let chunk: &[u8] = if t.reuse_buf {
+            rawbuf.clear();
+            rawbuf.extend_from_slice(&stream[cstart..cstart + cl]);
+            &rawbuf
+        } else {
+            &stream[cstart..cstart + cl]
+        };
         let mut window = chunk;
         let mut ncalls = 0usize;
         let mut prev_unchanged = false;
         loop {
             let pos = cstart + (chunk.len() - window.len());
+            ncall_total += 1;
+            if t.relocate && N <= 1024 && ncall_total % 2 == 0 {
+                // a plain Rust move of the accumulator to a different address
+                let mut fresh: Box<CobsAccumulator<N>> = Box::new(CobsAccumulator::new());
+                std::mem::swap(&mut *fresh, &mut *acc);
+                acc = fresh;
+            }
             let call = match feed_once::<N>(&mut acc, t.borrowed, pos, window) {
                 Ok(c) => c,
                 Err(msg) => fail!(
